@@ -1,10 +1,10 @@
--- Recorded by tools/snap_accept.sh from /repo at a9bec55: the digests of the statements the models were written against
+-- Recorded by tools/snap_accept.sh from /repo at d601844: the digests of the statements the models were written against
 namespace Emerge.Ref.SrcSnap
 
 def digest_C01 : Nat := 0x93e9b3c64391f96f3683de11fbd96709
 def count_C01 : Nat := 35
 
-def digest_C02 : Nat := 0x4b059086c7f676a23ec05e707fac7d2b
+def digest_C02 : Nat := 0xe62aa32e97c8f485b240c0d59562636e
 def count_C02 : Nat := 68
 
 def digest_C03 : Nat := 0xc298bba11c2f9eaaf7e1a790496724b9
@@ -25,7 +25,7 @@ def count_C07 : Nat := 19
 def digest_C08 : Nat := 0x8db6edf0ebbe0f6163c8900d817ea9b7
 def count_C08 : Nat := 20
 
-def digest_C09 : Nat := 0x0bf68cc289394017e8de7afd90908990
+def digest_C09 : Nat := 0xa70da57fe43b5cf275324e42b83d13e1
 def count_C09 : Nat := 91
 
 def digest_C10 : Nat := 0x6e7ed75e1bbfaf2bddfd49f49af04605
